@@ -156,7 +156,7 @@ def check(case):
     P = case['P']
     mm, BC, phi = problem.build_var(P)
     nrm = problem.opnorm(mm, P)
-    dt = P['theta'] / max(nrm, 1e-300)
+    dt = P["theta"] / (nrm if nrm > 0 else 1.0)
     ok = True
     for k in range(P['steps']):
         problem.step_implicit(mm, phi, P, dt)
